@@ -14,5 +14,6 @@ for d in seeded/C*_*; do
   [ "$id" = "C01_3" ] && props="C01,C02,C16"
   [ "$id" = "C18_6" ] && props="C12,C18"
   [ "$id" = "C01_12" ] && props="C01,C02,C16"
+  [ "$id" = "C12_14" ] && props="C12,C20"
   echo "$props /verif/$d $id"
 done | xargs -P ${1:-3} -L 1 sh -c '/verif/tools/seed_eval.py $0 $1 --keep $2 > /tmp/seedrefresh_$2.json 2>&1'
